@@ -273,6 +273,16 @@ func gen(t *rapid.T) Case {
 			c.Fault, c.Intact = "none", n
 			break
 		}
+		if c.Protocol == "grpc" && rapid.IntRange(0, 2).Draw(t, "webTrailerFlag") == 0 {
+			// a gRPC-Web trailer frame (0x80) inside a plain gRPC request,
+			// carrying what would parse as a header block
+			msgs[k] = []byte(rapid.SampledFrom([]string{"", "grpc-status: 0\r\n", "x-k: v\r\n"}).Draw(t, "trailerBlock"))
+			compress[k] = false
+			req = build()
+			c.Header, c.Body = kvs(req.Header), append([]byte(nil), req.Body...)
+			c.Body[frameOffset(k)] |= 0x80
+			break
+		}
 		off := frameOffset(k)
 		c.Body = append([]byte(nil), c.Body...)
 		c.Body[off] |= byte(rapid.SampledFrom([]int{0x04, 0x08, 0x10, 0x20, 0x40}).Draw(t, "badflag"))
